@@ -23,6 +23,7 @@ import (
 	"github.com/fatedier/frp/client"
 	"github.com/fatedier/frp/pkg/config"
 	v1 "github.com/fatedier/frp/pkg/config/v1"
+	"github.com/fatedier/frp/server/proxy"
 
 	"verif/mc/drv"
 	"verif/mc/peek"
@@ -163,9 +164,13 @@ func run(ac acase) (viol, inconclusive string) {
 		cancel()
 	}()
 	registered := func() map[string]bool {
+		// through the manager's own (locking) accessor: the table is being changed by the server meanwhile
 		out := map[string]bool{}
-		for _, k := range peek.MapKeys(peek.F(srv.Svc, "pxyManager.pxys")) {
-			out[k] = true
+		pm := peek.F(srv.Svc, "pxyManager").Interface().(*proxy.Manager)
+		for _, n := range []string{"a", "b"} {
+			if _, ok := pm.GetByName(n); ok {
+				out[n] = true
+			}
 		}
 		return out
 	}
